@@ -68,6 +68,10 @@ pub struct Outcome {
     pub excluded_by_known_finding: u64,
     /// free-form numeric observations merged (max) into evidence
     pub stats: Vec<(&'static str, u64)>,
+    /// violations the oracle noted but did not stop at: (signature, detail). Each must match a
+    /// `known` entry of known_findings.json (then it is counted and the case goes on being
+    /// checked behind it); otherwise the first one becomes the case's verdict.
+    pub soft: Vec<(String, String)>,
 }
 
 impl Outcome {
@@ -79,6 +83,7 @@ impl Outcome {
             fingerprint: 0,
             excluded_by_known_finding: 0,
             stats: vec![],
+            soft: vec![],
         }
     }
     pub fn violation(signature: impl Into<String>, detail: impl Into<String>) -> Self {
@@ -274,6 +279,14 @@ impl Findings {
     }
 }
 
+static CURRENT_PROPERTY: Mutex<&'static str> = Mutex::new("");
+pub fn set_current_property(id: &'static str) {
+    *CURRENT_PROPERTY.lock() = id;
+}
+pub fn current_property() -> &'static str {
+    *CURRENT_PROPERTY.lock()
+}
+
 static FINDINGS: std::sync::OnceLock<Findings> = std::sync::OnceLock::new();
 pub fn findings() -> &'static Findings {
     FINDINGS.get_or_init(Findings::load)
@@ -319,6 +332,7 @@ pub struct Floor {
 
 impl Ctx {
     pub fn new(id: &'static str, tier: Tier, seed: u64) -> Self {
+        set_current_property(id);
         Ctx {
             id,
             tier,
@@ -467,7 +481,16 @@ impl Ctx {
                 *a.labels.entry(l).or_default() += 1;
             }
             let expect = v.get("expect").and_then(|e| e.as_str()).unwrap_or("pass");
+            let mut soft_known = false;
+            for (sig, _) in &out.soft {
+                if let Some(e) = findings().known(self.id, sig) {
+                    soft_known = true;
+                    let ent = self.known_hits.entry(sig.clone()).or_insert((e.description.clone(), 0));
+                    ent.1 += 1;
+                }
+            }
             match (&out.verdict, expect) {
+                (Verdict::Pass, "known-finding") if soft_known => {}
                 (Verdict::Violation { signature, detail }, _) => {
                     // a witness of a `known` finding prints KNOWN-FINDING; anything else
                     // (including a witness of a `fixed` finding) is a violation.
@@ -546,6 +569,11 @@ impl Ctx {
                                 for (k, v) in &out.stats {
                                     let e = agg.stats.entry(k).or_default();
                                     *e = (*e).max(*v);
+                                }
+                                for (sig, _) in &out.soft {
+                                    if findings().known(id, sig).is_some() {
+                                        *known.entry(sig.clone()).or_default() += 1;
+                                    }
                                 }
                                 match &out.verdict {
                                     Verdict::Pass => {
@@ -802,6 +830,11 @@ pub fn run_guarded<C: CheckDef>(case: &C::Case, trace: bool) -> Outcome {
     WATCH.with(|w| w.end());
     match r {
         Some(mut o) => {
+            if !o.is_violation() {
+                if let Some((sig, detail)) = o.soft.iter().find(|(sig, _)| findings().known(current_property(), sig).is_none()).cloned() {
+                    o.verdict = Verdict::Violation { signature: sig, detail };
+                }
+            }
             if !panics.is_empty() && !o.is_violation() {
                 // a panic happened inside a spawned task; the check's own oracle decides
                 // whether that matters (C10 turns it into a violation itself via
@@ -894,6 +927,7 @@ pub fn replay_file<C: CheckDef>(id: &str, v: &Value) -> Option<i32> {
         return None;
     }
     install_panic_hook();
+    set_current_property(Box::leak(id.to_string().into_boxed_str()));
     PANIC_TRACE.store(true, Ordering::Relaxed);
     let case: C::Case = match serde_json::from_value(v["case"].clone()) {
         Ok(c) => c,
@@ -905,6 +939,11 @@ pub fn replay_file<C: CheckDef>(id: &str, v: &Value) -> Option<i32> {
     println!("replaying {id}/{} …", C::NAME);
     let out = run_guarded::<C>(&case, true);
     println!("labels: {:?} nontrivial={}", out.labels, out.nontrivial);
+    for (sig, detail) in &out.soft {
+        if let Some(e) = findings().known(id, sig) {
+            println!("KNOWN-FINDING: property={id} {sig}: {}\n  {detail}", e.description);
+        }
+    }
     match out.verdict {
         Verdict::Pass => {
             println!("PASS");
